@@ -186,6 +186,11 @@ def run4(fn, **kw):
     return out
 
 
+def pow2_unit(rng):
+    """a power-of-two length unit: keeps every dyadic construction (and ulp neighbourhoods) exact"""
+    return 2.0 ** rng.choice((0, 0, 0, -20, -10, 10))
+
+
 def case_cuboid(rng):
     n = rng.randint(1, 5)
     obs, dim, pol = [], [], []
@@ -197,6 +202,8 @@ def case_cuboid(rng):
         dim.append(d)
         pol.append(gen_pol(rng))
     obs, dim, pol = np.array(obs), np.array(dim), np.array(pol)
+    u = pow2_unit(rng)
+    obs, dim = obs * u, dim * u
     out = run4(MODS["cuboid"].BHJM_magnet_cuboid, observers=obs, dimension=dim, polarization=pol)
     rows = [f"{{| cu_obs := {cvec(o)}; cu_dim := {cvec(d)}; cu_pol := {cvec(p)} |}}" for o, d, p in zip(obs, dim, pol)]
     return f"XCub {clist(rows)} {cexp(out)}", ("Cuboid", n)
@@ -236,6 +243,8 @@ def case_cylinder(rng):
         dim.append([2 * r0, 2 * z0])
         pol.append(gen_pol(rng))
     obs, dim, pol = np.array(obs), np.array(dim), np.array(pol)
+    u = pow2_unit(rng)
+    obs, dim = obs * u, dim * u
     out = run4(MODS["cylinder"].BHJM_magnet_cylinder, observers=obs, dimension=dim, polarization=pol)
     r, phi, c, s, z, pxy, dphi = cyl_parts(obs, pol)
     rows = [f"{{| cy_r := {cq(r[i])}; cy_c := {cq(c[i])}; cy_s := {cq(s[i])}; cy_z := {cq(z[i])}; "
@@ -300,6 +309,11 @@ def case_segment(rng, internal=False):
     n = rng.randint(1, 5)
     rows = [gen_seg_row(rng, full=internal and rng.random() < 0.5) for _ in range(n)]
     obs, dim, pol = (np.array([r[i] for r in rows], dtype=float) for i in range(3))
+    # units <= 1 only: above ~2**6 binary64 absorbs the wrapper's absolute 1e-14 margins (r2 + 1e-14 == r2), which the
+    # exact-arithmetic model cannot reproduce (a scale effect that does not touch B = mu0*H + J; the search covers it)
+    u = min(pow2_unit(rng), 1.0)
+    obs = obs * u
+    dim[:, :3] *= u
     fn = MODS["cylinder_segment"].BHJM_cylinder_segment_internal if internal else MODS["cylinder_segment"].BHJM_cylinder_segment
     out = run4(fn, observers=obs, dimension=dim, polarization=pol)
     return f"{'XSegI' if internal else 'XSeg'} {clist(seg_row_text(obs, dim, pol))} {cexp(out)}", \
@@ -324,6 +338,8 @@ def case_sphere(rng):
             o = dyv(rng, -3, 3, 4)
         obs.append(o), dia.append(d), pol.append(gen_pol(rng))
     obs, dia, pol = np.array(obs), np.array(dia), np.array(pol)
+    u = pow2_unit(rng)
+    obs, dia = obs * u, dia * u
     out = run4(MODS["sphere"].BHJM_magnet_sphere, observers=obs, diameter=dia, polarization=pol)
     x, y, z = obs.T
     r = np.sqrt(x ** 2 + y ** 2 + z ** 2)
@@ -451,6 +467,8 @@ def case_circle(rng):
                 o[0] = 0.5
         obs.append(o), dia.append(d), cur.append(dy(rng, -3, 3, 2))
     obs, dia, cur = np.array(obs), np.array(dia), np.array(cur)
+    u = pow2_unit(rng)
+    obs, dia = obs * u, dia * u
     out = run4(MODS["circle"].BHJM_circle, observers=obs, diameter=dia, current=cur)
     x, y, z = obs.T
     r, phi = np.sqrt(x ** 2 + y ** 2), np.arctan2(y, x)
@@ -710,6 +728,11 @@ def fl(rng, lo, hi):
 
 def nz_pol(rng):
     k = rng.random()
+    if k < 0.15:        # exactly along +-x, +-y, +-z
+        p = [0.0, 0.0, 0.0]
+        p[rng.randrange(3)] = rng.choice((-1, 1)) * fl(rng, 0.1, 2)
+        return p
+    k = rng.random()
     if k < 0.2:
         return [0.0, 0.0, fl(rng, 0.1, 2) * rng.choice((-1, 1))]
     if k < 0.35:
@@ -889,10 +912,14 @@ def make_scenario(rng, cls):
     """returns (constructor kwargs (json-able), local points with location classes, polarization or None)"""
     if cls == "Cuboid":
         dim = [fl(rng, 0.2, 4) for _ in range(3)]
+        if rng.random() < 0.3:      # plate / rod: every axis can be the long or the thin one
+            dim[rng.randrange(3)] *= rng.choice((1e-3, 1e-2, 50.0))
         pol = nz_pol(rng)
         return {"dimension": dim, "polarization": pol}, pts_cuboid(rng, dim), pol
     if cls == "Cylinder":
         d, h = rng.choice((1.0, 2.0, fl(rng, 0.2, 4))), rng.choice((1.0, 2.0, fl(rng, 0.2, 4)))
+        if rng.random() < 0.25:     # disc / needle
+            h *= rng.choice((1e-3, 1e-2, 50.0))
         pol = nz_pol(rng)
         return {"dimension": [d, h], "polarization": pol}, pts_cylinder(rng, d / 2, h / 2), pol
     if cls == "CylinderSegment":
@@ -911,12 +938,14 @@ def make_scenario(rng, cls):
                 P.append(([r1, 0.0, 0.1 * h], "full-cylinder-inner-hull"))
             return {"dimension": [r1, r2, h, p1, p1 + 360], "polarization": pol}, P, pol
         r1 = rng.choice((0.0, fl(rng, 0.2, 1.5)))
-        r2 = r1 + fl(rng, 0.3, 2)
-        h = fl(rng, 0.3, 3)
-        p1 = rng.choice((0, -90, 30, -170, 100, fl(rng, -180, 100)))
-        p2 = p1 + rng.choice((90, 180, 45, 270, fl(rng, 20, 340)))
+        r2 = r1 + rng.choice((fl(rng, 0.3, 2), fl(rng, 0.3, 2), 1e-3 * max(r1, 0.5)))      # incl. thin shells
+        h = fl(rng, 0.3, 3) * rng.choice((1, 1, 1, 1e-2))
+        p1 = rng.choice((0, -90, 30, -170, 100, -270, -350, -360, fl(rng, -360, 100)))
+        p2 = p1 + rng.choice((90, 180, 45, 270, 359.5, 5, fl(rng, 20, 340)))
         if p2 > 360:
             p2 = 360
+        if p2 - p1 >= 360:
+            p1 = p2 - 359.5
         return {"dimension": [r1, r2, h, p1, p2], "polarization": pol}, pts_segment(rng, r1, r2, h, p1, p2), pol
     if cls == "Sphere":
         d = rng.choice((1.0, 2.0, fl(rng, 0.2, 5)))
@@ -957,7 +986,7 @@ def make_scenario(rng, cls):
         d = fl(rng, 0.2, 4)
         P = [([fl(rng, -3, 3) for _ in range(3)], "anywhere") for _ in range(8)]
         P += [([0.0, 0.0, fl(rng, -2, 2)], "axis"), ([d / 2, 0.0, 0.0], "on-wire"), ([0.0, 0.0, 0.0], "centre")]
-        return {"diameter": d, "current": fl(rng, -5, 5)}, P, None
+        return {"diameter": d, "current": rng.choice((fl(rng, -5, 5), fl(rng, -5, 5), 0.0))}, P, None
     if cls == "Polyline":
         v = [[fl(rng, -2, 2) for _ in range(3)] for _ in range(rng.randint(2, 4))]
         if rng.random() < 0.3:
@@ -965,11 +994,24 @@ def make_scenario(rng, cls):
         P = [([fl(rng, -3, 3) for _ in range(3)], "anywhere") for _ in range(8)]
         P += [(((np.array(v[0]) + np.array(v[-1 if len(v) == 2 else 1])) / 2).tolist(), "on-wire"),
               ((2 * np.array(v[-1]) - np.array(v[-2])).tolist(), "wire-extension")]
-        return {"vertices": v, "current": fl(rng, -5, 5)}, P, None
+        return {"vertices": v, "current": rng.choice((fl(rng, -5, 5), fl(rng, -5, 5), 0.0))}, P, None
     if cls == "Dipole":
         P = [([fl(rng, -3, 3) for _ in range(3)], "anywhere") for _ in range(8)]
         return {"moment": nz_pol(rng)}, P, None
     raise ValueError(cls)
+
+
+def scale_scenario(kwargs, pts, s):
+    """the same body and observers in another length unit (polarization / current / moment unchanged)"""
+    kw = dict(kwargs)
+    for key in ("diameter", "vertices", "faces"):
+        if key in kw:
+            kw[key] = (np.array(kw[key], dtype=float) * s).tolist()
+    if "dimension" in kw:
+        d = list(kw["dimension"])
+        n = 3 if len(d) == 5 else len(d)
+        kw["dimension"] = [x * s for x in d[:n]] + d[n:]
+    return kw, [((np.array(p, dtype=float) * s).tolist(), c) for p, c in pts]
 
 
 CLASSES = ["Cuboid", "Cylinder", "CylinderSegment", "Sphere", "Tetrahedron", "TriangularMesh",
@@ -992,13 +1034,46 @@ def build(cls, kwargs, pos, rotvec):
     return getattr(mod, cls)(position=pos, orientation=R.from_rotvec(rotvec), **kwargs)
 
 
-def fields_at(src, obs, in_out="auto"):
+VIAS = ("top", "top", "method", "sensor", "functional", "functional-ndarray")
+
+
+def functional_kwargs(cls, kwargs, as_array):
+    """keyword arguments of the functional interface getB("Cuboid", obs, dimension=..., ...) or None when the class
+    has no direct equivalent of its constructor arguments"""
+    if cls == "Polyline":
+        return None
+    kw = {}
+    for k, v in kwargs.items():
+        if cls == "TriangularMesh" and k == "faces":
+            k = "mesh"
+        kw[k] = np.array(v, dtype=float) if (as_array and isinstance(v, list)) else v
+    return kw
+
+
+def fields_at(src, obs, in_out="auto", via="top", scn=None):
+    """B, H, J, M at the observers through one of the public entry points"""
     import warnings
     out = {}
+    obs = np.array(obs, dtype=float)
+    fk = None
+    if via.startswith("functional") and scn is not None:
+        fk = functional_kwargs(scn["cls"], scn["kwargs"], via.endswith("ndarray"))
     with warnings.catch_warnings():
         warnings.simplefilter("ignore")
         for f, fn in zip(FIELDS, (magpy.getB, magpy.getH, magpy.getJ, magpy.getM)):
-            out[f] = np.reshape(np.array(fn(src, np.array(obs, dtype=float), in_out=in_out), dtype=float), (-1, 3))
+            if fk is not None:
+                kw = {k: (v.copy() if isinstance(v, np.ndarray) else v) for k, v in fk.items()}
+                if scn["cls"] in ("Tetrahedron", "TriangularMesh"):
+                    kw["in_out"] = in_out
+                r = fn(scn["cls"], obs if via.endswith("ndarray") else obs.tolist(), position=scn["pos"],
+                       orientation=R.from_rotvec(scn["rotvec"]), **kw)
+            elif via == "method":
+                r = getattr(src, "get" + f)(obs, in_out=in_out)
+            elif via == "sensor":
+                r = getattr(magpy.Sensor(pixel=obs), "get" + f)(src, in_out=in_out)
+            else:
+                r = fn(src, obs, in_out=in_out)
+            out[f] = np.reshape(np.array(r, dtype=float), (-1, 3))
     return out
 
 
@@ -1051,7 +1126,7 @@ def scenario_check(scn):
     loc = np.array([p for p, _ in scn["points"]], dtype=float).reshape(-1, 3)
     obs = rot.apply(loc) + np.array(scn["pos"], dtype=float)
     polg = None if scn["pol"] is None else rot.apply(np.array(scn["pol"], dtype=float))
-    out = fields_at(src, obs, scn.get("in_out", "auto"))
+    out = fields_at(src, obs, scn.get("in_out", "auto"), scn.get("via", "top"), scn)
     return judge(scn["cls"], out, polg, [c for _, c in scn["points"]])
 
 
@@ -1083,6 +1158,76 @@ def shrink_scenario(scn, row, clause):
     return best, batch
 
 
+def run_scenario(ctx, v, sample=False):
+    """evaluate one scenario, book it, shrink and report what fails"""
+    cls = v["cls"]
+    try:
+        bad = scenario_check(v)
+    except Exception as e:   # pylint: disable=broad-except
+        ctx.impl_fail(f"raises/{cls}:{type(e).__name__}", f"field computation raised {type(e).__name__}: {e}", v)
+        return
+    ctx.case(json.dumps(v, sort_keys=True), True,
+             sample={"class": cls, "in_out": v["in_out"], "points": len(v["points"])} if sample else None)
+    ctx.count("oracle_rows", len(v["points"]))
+    for _, c in v["points"]:
+        ctx.bump(f"search:{cls}:{c}")
+    seen = set()
+    for row, clause, detail in bad:
+        key = (clause, coarse(cls, v["points"][row][1], clause))
+        if key in seen:
+            continue
+        seen.add(key)
+        small, batch = shrink_scenario(v, row, clause)
+        locc = v["points"][row][1]
+        sig = f"{clause}/{cls}:{coarse(cls, locc, clause)}" + ("" if v["in_out"] == "auto" else ":in_out-" + v["in_out"])
+        ctx.impl_fail(sig, f"{cls} at a point of class '{locc}' ({batch}): {detail}; local point "
+                           f"{small['points'][0][0]}, {json.dumps(small['kwargs'])[:200]}", small)
+
+
+BOX_FACES = [(0, 1, 3), (0, 3, 2), (4, 7, 5), (4, 6, 7), (0, 5, 1), (0, 4, 5), (2, 3, 7), (2, 7, 6), (0, 2, 6), (0, 6, 4),
+             (1, 7, 3), (1, 5, 7)]
+
+
+def fixed_battery(ctx):
+    """runs on EVERY run, independent of the seed: bodies given by local vertices (TriangularMesh boxes, Tetrahedra) that
+    are off their local origin with every ordering of the per-axis minima / extents, observers strictly inside near
+    every corner and the centre, strictly outside beyond every face; identity pose, a quarter turn and a 180-degree flip;
+    units 1 and 1e-3; polarization along each axis"""
+    import itertools
+    mins_sizes = list(zip(itertools.permutations((-1.0, 0.5, 2.5)), itertools.cycle(itertools.permutations((2.0, 1.0, 3.0)))))
+    poses = [([0.0, 0.0, 0.0], [0.0, 0.0, 0.0]), ([1.0, -2.0, 0.5], [0.0, 0.0, math.pi / 2]), ([0.0, 0.0, 0.0], [math.pi, 0.0, 0.0])]
+    for n, (mn, sz) in enumerate(mins_sizes):
+        mn, sz = np.array(mn), np.array(sz)
+        corners = np.array([[mn[0] + a * sz[0], mn[1] + b * sz[1], mn[2] + c * sz[2]] for a in (0, 1) for b in (0, 1) for c in (0, 1)])
+        cen = mn + sz / 2
+        pts = [((cen + 0.8 * (c - cen)).tolist(), "inside") for c in corners] + [(cen.tolist(), "inside")]
+        for ax in range(3):
+            for sg in (-1, 1):
+                p = cen.copy()
+                p[ax] += sg * 0.75 * sz[ax]
+                pts.append((p.tolist(), "outside"))
+        pol = [0.0, 0.0, 0.0]
+        pol[n % 3] = 1.0 if n % 2 else -0.5
+        pos, rv = poses[n % 3]
+        unit = 1.0 if n % 2 == 0 else 1e-3
+        faces = [[corners[i].tolist() for i in f] for f in BOX_FACES]
+        for cls, kwargs, P in (("TriangularMesh", {"faces": faces, "polarization": pol}, pts),
+                               ("Tetrahedron", {"vertices": [corners[0].tolist(), corners[4].tolist(), corners[2].tolist(),
+                                                             corners[1].tolist()] if n % 2 else
+                                                [corners[0].tolist(), corners[1].tolist(), corners[2].tolist(), corners[4].tolist()],
+                                                "polarization": pol}, None)):
+            if P is None:       # the corner tetrahedron of the box (both vertex orders over the battery)
+                v = np.array(kwargs["vertices"])
+                tc = v.mean(axis=0)
+                P = [((tc + 0.8 * (q - tc)).tolist(), "inside") for q in v] + [(tc.tolist(), "inside")] + \
+                    [((tc + 3.0 * (q - tc)).tolist(), "outside") for q in v] + [(corners[7].tolist(), "outside")]
+            kw, PP = scale_scenario(kwargs, P, unit) if unit != 1.0 else (kwargs, P)
+            scn = {"kind": "fields", "cls": cls, "kwargs": kw, "pos": [x * unit for x in pos], "rotvec": rv, "pol": pol,
+                   "points": PP, "in_out": "auto", "via": VIAS[n % len(VIAS)], "unit": unit}
+            run_scenario(ctx, scn)
+            ctx.bump("battery:" + cls)
+
+
 def search_fields(ctx, per_class):
     rng = ctx.rng
     for cls in CLASSES:
@@ -1090,8 +1235,14 @@ def search_fields(ctx, per_class):
             kwargs, pts, pol = make_scenario(rng, cls)
             rot = rand_rot(rng)
             pos = [0.0, 0.0, 0.0] if rng.random() < 0.3 else [fl(rng, -3, 3) for _ in range(3)]
+            unit = rng.choice((1.0, 1.0, 1e-3, 1e-6, 1e3))       # absolute length scale
+            if unit != 1.0:
+                kwargs, pts = scale_scenario(kwargs, pts, unit)
+                pos = [x * unit for x in pos]
             scn = {"kind": "fields", "cls": cls, "kwargs": kwargs, "pos": pos, "rotvec": rot.as_rotvec().tolist(),
-                   "pol": pol, "points": pts, "in_out": "auto"}
+                   "pol": pol, "points": pts, "in_out": "auto", "via": rng.choice(VIAS), "unit": unit}
+            ctx.bump(f"search:unit:{unit:g}")
+            ctx.bump("search:via:" + scn["via"])
             variants = [scn]
             # the same points one at a time (batch size 1), for a few scenarios
             if t % 3 == 0:
@@ -1102,27 +1253,7 @@ def search_fields(ctx, per_class):
                     if sel:
                         variants.append(dict(scn, points=sel, in_out=io))
             for v in variants:
-                try:
-                    bad = scenario_check(v)
-                except Exception as e:   # pylint: disable=broad-except
-                    ctx.impl_fail(f"raises/{cls}:{type(e).__name__}", f"field computation raised {type(e).__name__}: {e}", v)
-                    continue
-                ctx.case(json.dumps(v, sort_keys=True), True,
-                         sample={"class": cls, "in_out": v["in_out"], "points": len(v["points"])} if t == 0 and v is scn else None)
-                ctx.count("oracle_rows", len(v["points"]))
-                for _, c in v["points"]:
-                    ctx.bump(f"search:{cls}:{c}")
-                seen = set()
-                for row, clause, detail in bad:
-                    key = (clause, coarse(cls, v["points"][row][1], clause))
-                    if key in seen:
-                        continue
-                    seen.add(key)
-                    small, batch = shrink_scenario(v, row, clause)
-                    locc = v["points"][row][1]
-                    sig = f"{clause}/{cls}:{coarse(cls, locc, clause)}" + ("" if v["in_out"] == "auto" else ":in_out-" + v["in_out"])
-                    ctx.impl_fail(sig, f"{cls} at a point of class '{locc}' ({batch}): {detail}; local point "
-                                       f"{small['points'][0][0]}, {json.dumps(small['kwargs'])[:200]}", small)
+                run_scenario(ctx, v, sample=(t == 0 and v is scn))
 
 
 def search_two_meshes(ctx, n):
@@ -1187,6 +1318,220 @@ def multi_check(multi):
         polg = rot.apply(np.array(s["pol"], dtype=float))
         out += [(k, r, c, d) for r, c, d in judge(s["cls"], res, polg, [c for _, c in s["points"]])]
     return out
+
+
+# ---------------------------------------------------------------------- several sources, paths, collections in one call
+def pose_at(sd, i):
+    """pose of source description sd at path step i (shorter paths are padded with their last pose)"""
+    path = sd["path"]
+    pos, rv = path[min(i, len(path) - 1)]
+    return np.array(pos, dtype=float), R.from_rotvec(rv)
+
+
+def build_path_source(sd):
+    src = build(sd["cls"], sd["kwargs"], sd["path"][0][0], sd["path"][0][1])
+    if len(sd["path"]) > 1:
+        src.position = [p for p, _ in sd["path"]]
+        src.orientation = R.from_rotvec([rv for _, rv in sd["path"]])
+    return src
+
+
+def gen_big_call(rng):
+    """>= 4 sources of interleaved classes incl. twins (same geometry, other excitation), a duplicate, excitations that
+    differ by 1e6..1e12, paths of length 1 < m0 < M next to longer ones"""
+    n = rng.randint(4, 7)
+    descs = []
+    M = rng.choice((1, 1, 3, 4))
+    # half of the calls draw from 2-3 classes only: several DIFFERENT sources of one class share a group
+    pool = rng.sample(CLASSES, rng.choice((2, 3))) if rng.random() < 0.5 else CLASSES
+    for k in range(n):
+        if descs and rng.random() < 0.25:       # twin of an earlier source: same geometry and pose, other excitation
+            base = descs[rng.randrange(len(descs))]
+            kw = dict(base["kwargs"])
+            pol = base["pol"]
+            if pol is not None:
+                pol = [x * rng.choice((-1.0, 1e-6, 1e6, 2.0)) for x in pol]
+                kw["polarization"] = pol
+            elif "current" in kw:
+                kw["current"] = kw["current"] * rng.choice((-1.0, 1e6, 0.0))
+            descs.append(dict(base, kwargs=kw, pol=pol, twin=True))
+            continue
+        cls = rng.choice(pool)
+        kwargs, pts, pol = make_scenario(rng, cls)
+        if pol is not None and rng.random() < 0.4:      # large ratios between sources, in either order
+            f = rng.choice((1e-6, 1e6, 1e-3, 1e3))
+            pol = [x * f for x in pol]
+            kwargs = dict(kwargs, polarization=pol)
+        m0 = rng.choice((1, 1, max(1, M - 1), M, 2)) if M > 1 else 1
+        path = [([fl(rng, -2, 2) for _ in range(3)], rand_rot(rng).as_rotvec().tolist()) for _ in range(min(m0, M))]
+        keep = [p for p in pts if p[1] in ("inside", "outside")][:3] + [p for p in pts if p[1] not in ("inside", "outside")][:3]
+        descs.append({"cls": cls, "kwargs": kwargs, "pol": pol, "path": path, "points": keep})
+    order = list(range(len(descs)))
+    rng.shuffle(order)
+    return {"kind": "big-call", "sources": [descs[i] for i in order], "M": M, "duplicate": rng.random() < 0.3,
+            "nest": rng.choice((0, 0, 1, 2)), "one_obs": rng.randrange(1000) if rng.random() < 0.4 else None}
+
+
+def big_call_check(bc):
+    """every source of a many-source call, at every path step and every observer: the property per source
+    (sumup=False), for the sum (sumup=True) and for the sources wrapped into nested Collections"""
+    import warnings
+    descs = bc["sources"]
+    srcs = [build_path_source(sd) for sd in descs]
+    if bc.get("duplicate"):
+        srcs = srcs + [srcs[0]]
+        descs = descs + [descs[0]]
+    M = max(len(sd["path"]) for sd in descs)
+    # observers: the special points of every source at its FIRST pose (location classes are known there for a static source)
+    obs, owner = [], []
+    for k, sd in enumerate(bc["sources"]):
+        pos, rot = pose_at(sd, 0)
+        for p, c in sd["points"]:
+            obs.append(rot.apply(np.array(p, dtype=float)) + pos)
+            owner.append((k, c))
+    if bc.get("one_obs") is not None:       # exactly one observer: every source contributes exactly one row per step
+        ins = [q for q, (_, c) in enumerate(owner) if c == "inside"] or list(range(len(obs)))
+        j = ins[bc["one_obs"] % len(ins)]       # preferably a point strictly inside one of the bodies
+        obs, owner = obs[j:j + 1], owner[j:j + 1]
+    obs = np.array(obs)
+    res = {}
+    with warnings.catch_warnings():
+        warnings.simplefilter("ignore")
+        for f, fn in zip(FIELDS, (magpy.getB, magpy.getH, magpy.getJ, magpy.getM)):
+            res[f] = np.reshape(np.array(fn(srcs, obs, sumup=False, squeeze=False), dtype=float), (len(srcs), M, len(obs), 3))
+        tot = {f: np.reshape(np.array(fn(srcs, obs, sumup=True, squeeze=False), dtype=float), (M, len(obs), 3))
+               for f, fn in zip(FIELDS, (magpy.getB, magpy.getH, magpy.getJ, magpy.getM))}
+    bad = []
+    for k, sd in enumerate(descs):
+        for i in range(M):
+            _, rot = pose_at(sd, i)
+            polg = None if sd["pol"] is None else rot.apply(np.array(sd["pol"], dtype=float))
+            static = len(sd["path"]) == 1
+            locs = [(c if (kk == k and (static or i == 0) and k < len(bc["sources"])) else "unknown") for kk, c in owner]
+            out = {f: res[f][k, i] for f in FIELDS}
+            bad += [(k, i, r, c, d) for r, c, d in judge(sd["cls"], out, polg, locs)]
+    # the sum: B = mu0*H + J and J = mu0*M with the tolerance relative to the largest contribution
+    for i in range(M):
+        for r in range(len(obs)):
+            vals = [res[f][:, i, r] for f in FIELDS]
+            if not all(np.isfinite(v).all() for v in vals):
+                continue
+            scale = max(float(np.abs(res["B"][:, i, r]).max()), float(np.abs(MU0 * res["H"][:, i, r]).max()),
+                        float(np.abs(res["J"][:, i, r]).max()), 1e-300) * len(srcs)
+            d1 = float(np.abs(tot["B"][i, r] - MU0 * tot["H"][i, r] - tot["J"][i, r]).max())
+            d2 = float(np.abs(tot["J"][i, r] - MU0 * tot["M"][i, r]).max())
+            d3 = max(float(np.abs(tot[f][i, r] - res[f][:, i, r].sum(axis=0)).max()) / (1.0 if f in "BJ" else 1 / MU0) for f in FIELDS)
+            if d1 > RTOL * scale:
+                bad.append((-1, i, r, "B=mu0H+J", f"sum over {len(srcs)} sources: |B - mu0 H - J| = {d1:.3e}, scale {scale:.3e}"))
+            if d2 > RTOL * scale:
+                bad.append((-1, i, r, "J=mu0M", f"sum over {len(srcs)} sources: |J - mu0 M| = {d2:.3e}, scale {scale:.3e}"))
+            if d3 > 1e-10 * scale:
+                bad.append((-1, i, r, "sum-of-sources", f"sumup=True differs from the sum of the per-source outputs by {d3:.3e}"))
+    # nested collections (depth bc['nest']): one more entry point; the collection is ONE source whose output is the sum
+    if bc.get("nest") and not bc.get("duplicate"):
+        with warnings.catch_warnings():
+            warnings.simplefilter("ignore")
+            fresh = [build_path_source(sd) for sd in bc["sources"]]
+            coll = magpy.Collection(*fresh[:2])
+            for _ in range(bc["nest"] - 1):
+                coll = magpy.Collection(coll)
+            coll = magpy.Collection(coll, *fresh[2:])
+            ctot = {f: np.reshape(np.array(fn(coll, obs, squeeze=False), dtype=float), (M, len(obs), 3))
+                    for f, fn in zip(FIELDS, (magpy.getB, magpy.getH, magpy.getJ, magpy.getM))}
+        for f in FIELDS:
+            ref = tot[f]
+            sc = max(float(np.abs(ref[np.isfinite(ref)]).max()) if np.isfinite(ref).any() else 0.0, 1e-300)
+            ok = np.isfinite(ref) & np.isfinite(ctot[f])
+            if ok.any() and float(np.abs(ctot[f][ok] - ref[ok]).max()) > 1e-9 * sc:
+                bad.append((-1, 0, 0, "collection-sum", f"get{f} of the nested Collection differs from the sum of its sources"))
+    return bad
+
+
+def search_big_calls(ctx, n):
+    rng = ctx.rng
+    for _ in range(n):
+        bc = gen_big_call(rng)
+        try:
+            bad = big_call_check(bc)
+        except Exception as e:   # pylint: disable=broad-except
+            ctx.impl_fail(f"raises/big-call:{type(e).__name__}", f"many-source call raised {type(e).__name__}: {e}", bc)
+            continue
+        ctx.case(json.dumps(bc, sort_keys=True), True)
+        ctx.bump("search:big-call:sources", len(bc["sources"]))
+        ctx.bump(f"search:big-call:path-{bc['M']}")
+        seen = set()
+        for k, i, r, clause, detail in bad:
+            cls = "sum" if k < 0 else (bc["sources"] + bc["sources"][:1])[k]["cls"]
+            key = (clause, cls)
+            if key in seen:
+                continue
+            seen.add(key)
+            # shrink: drop sources while the same clause still fails for the same class
+            def fails(srcs, clause=clause, cls=cls):
+                if len(srcs) < 1:
+                    return False
+                try:
+                    b2 = big_call_check(dict(bc, sources=srcs, duplicate=False, nest=0 if clause != "collection-sum" else bc["nest"]))
+                except Exception:   # pylint: disable=broad-except
+                    return False
+                return any(c == clause and ("sum" if kk < 0 else srcs[kk]["cls"]) == cls for kk, _, _, c, _ in b2)
+            from harness.shrink import shrink_list
+            small = shrink_list(bc["sources"], fails, max_steps=30) if not bc.get("duplicate") else bc["sources"]
+            trig = "several-sources-in-one-call" if len(small) > 1 else "alone"
+            ctx.impl_fail(f"{clause}/{cls}:{trig}" + (":path" if bc["M"] > 1 and trig != "alone" else ""),
+                          f"call with {len(bc['sources'])} sources ({[x['cls'] for x in bc['sources']]}, path length {bc['M']}): "
+                          f"source {k}, step {i}, observer {r}: {detail}", dict(bc, sources=small))
+
+
+# ---------------------------------------------------------------------- call -> public mutation -> call == fresh twin
+def search_mutation_twin(ctx, n):
+    rng = ctx.rng
+    import warnings
+    for t in range(n):
+        cls = MAGNETS[t % len(MAGNETS)]
+        kw1, pts, pol1 = make_scenario(rng, cls)
+        kw2, _, pol2 = make_scenario(rng, cls)
+        pos1, pos2 = ([fl(rng, -2, 2) for _ in range(3)] for _ in range(2))
+        rv1, rv2 = (rand_rot(rng).as_rotvec().tolist() for _ in range(2))
+        obs = R.from_rotvec(rv1).apply(np.array([p for p, _ in pts[:10]])) + np.array(pos1)
+        what = rng.choice(("polarization", "magnetization", "pose", "geometry", "all"))
+        with warnings.catch_warnings():
+            warnings.simplefilter("ignore")
+            a = build(cls, kw1, pos1, rv1)
+            first = fields_at(a, obs)
+            final_kw, final_pos, final_rv = dict(kw1), pos1, rv1
+            if what in ("polarization", "all"):
+                a.polarization = pol2
+                final_kw["polarization"] = pol2
+            if what == "magnetization":
+                a.magnetization = [x / (4e-7 * math.pi) for x in pol2]
+                final_kw["polarization"] = a.polarization.tolist()
+            if what in ("pose", "all"):
+                a.position = pos2
+                a.orientation = R.from_rotvec(rv2)
+                final_pos, final_rv = pos2, rv2
+            if what in ("geometry", "all") and cls != "TriangularMesh":
+                for key in ("dimension", "diameter", "vertices"):
+                    if key in kw2:
+                        setattr(a, key, kw2[key])
+                        final_kw[key] = kw2[key]
+            b = build(cls, final_kw, final_pos, final_rv)
+            fa, fb = fields_at(a, obs), fields_at(b, obs)
+        ctx.case(("twin", cls, what, json.dumps(kw1, sort_keys=True)), True)
+        ctx.bump("search:mutation-twin:" + what)
+        for f in FIELDS:
+            ok = np.isfinite(fa[f]) & np.isfinite(fb[f])
+            sc = max(float(np.abs(fb[f][ok]).max()) if ok.any() else 0.0, 1e-300)
+            if ok.any() and float(np.abs(fa[f][ok] - fb[f][ok]).max()) > 1e-12 * sc or not np.array_equal(np.isfinite(fa[f]), np.isfinite(fb[f])):
+                ctx.impl_fail(f"stale-after-mutation/{cls}:{what}:get{f}",
+                              f"{cls}: get{f} after assigning {what} differs from a fresh twin built with the final values",
+                              {"kind": "twin", "cls": cls, "what": what})
+        # and the property itself on the mutated object
+        polg = R.from_rotvec(final_rv).apply(np.array(final_kw["polarization"], dtype=float))
+        for r, clause, detail in judge(cls, fa, polg, ["unknown"] * len(obs)):
+            ctx.impl_fail(f"{clause}/{cls}:after-{what}-assignment", f"{cls} after assigning {what}: {detail}",
+                          {"kind": "twin", "cls": cls, "what": what})
+            break
 
 
 def search_rings(ctx, n):
@@ -1372,12 +1717,17 @@ def run(ctx):
         ctx.coqchk("MV.Props.C02")
 
     run_guarded(ctx, lambda: correspondence(ctx, built, ctx.n(40, 300)), "C02 correspondence")
+    ctx.log("correspondence done")
 
     big = bool(ctx.broken)
     mult = 5 if big else 1
+    run_guarded(ctx, lambda: fixed_battery(ctx), "C02 fixed battery")
     run_guarded(ctx, lambda: search_fields(ctx, ctx.n(12, 100) * mult), "C02 field oracle")
+    run_guarded(ctx, lambda: search_big_calls(ctx, ctx.n(12, 150) * mult), "C02 many-source calls")
+    run_guarded(ctx, lambda: search_mutation_twin(ctx, ctx.n(18, 180) * mult), "C02 mutation vs fresh twin")
     run_guarded(ctx, lambda: search_rings(ctx, ctx.n(400, 6000) * mult), "C02 ring oracle")
     run_guarded(ctx, lambda: search_two_meshes(ctx, ctx.n(6, 60) * mult), "C02 several sources")
+    ctx.log("field searches done")
     run_guarded(ctx, lambda: search_attrs(ctx, ctx.n(60, 600) * mult), "C02 attribute oracle")
 
 
@@ -1389,6 +1739,8 @@ def replay(ctx, obj):
         bad = scenario_check(rp)
     elif kind == "multi":
         bad = multi_check(rp)
+    elif kind == "big-call":
+        bad = big_call_check(rp)
     elif kind == "attrs":
         bad = attr_check_all(rp)
     elif kind == "getM":
